@@ -97,6 +97,28 @@ fn run_ser_tree<Tr: TreeApi>(rep: &mut Rep, spec: &SeqSpec, budget: usize, defau
     chk!(rep, "deserialized == original", m.len(), Exp::Is(true), t2 == t);
     chk!(rep, "original == deserialized", m.len(), Exp::Is(true), t == t2);
     chk!(rep, "re-serialize identical", m.len(), Exp::Is(true), t2.ser().ok().as_deref() == Some(&bytes[..]));
+    // the same bytes through bincode's reader / writer entry points (a file, a socket, a BufReader): a plain slice reader,
+    // a reader that hands out a few bytes per call, and a BufReader on top of it
+    for (how, chunk) in [("slice reader", 0usize), ("7-byte reads", 7), ("BufReader over 4093-byte reads", 4093)] {
+        if chunk == 7 && bytes.len() > 3_000_000 {
+            continue;
+        }
+        let r = guard(|| match chunk {
+            0 => Tr::de_reader(&mut &bytes[..]),
+            7 => Tr::de_reader(&mut ChunkReader { data: &bytes, pos: 0, chunk }),
+            _ => Tr::de_reader(&mut std::io::BufReader::new(ChunkReader { data: &bytes, pos: 0, chunk })),
+        });
+        rep.tick("deserialize_from(reader)");
+        match r {
+            Out::Val(Ok(t4)) => {
+                chk!(rep, "deserialize_from(reader) == original", (how, m.len()), Exp::Is(true), t4 == t);
+            }
+            Out::Val(Err(e)) => rep.viol("deserialize_from(reader)", format!("{} ({} bytes)", how, bytes.len()), "Ok".into(), format!("Err({})", e), "wrong_value".into()),
+            Out::Panic(p) => rep.viol("deserialize_from(reader)", format!("{} ({} bytes)", how, bytes.len()), "Ok".into(), format!("{:?}", p), "panic".into()),
+        }
+    }
+    let mut w: Vec<u8> = Vec::new();
+    chk!(rep, "serialize_into(writer) writes the same bytes", m.len(), Exp::Is(true), t.ser_into(&mut w).is_ok() && w == bytes);
     let mut rng = Rng::new(spec.seed ^ 0xC11);
     let o = BatOpts::new(budget);
     let mut r1 = rng.clone();
@@ -114,6 +136,22 @@ fn run_ser_tree<Tr: TreeApi>(rep: &mut Rep, spec: &SeqSpec, budget: usize, defau
     }
     if m.len() >= 2 {
         rep.nontrivial();
+    }
+}
+
+/// a reader that never hands out more than `chunk` bytes per call (short reads are legal for `Read`)
+struct ChunkReader<'a> {
+    data: &'a [u8],
+    pos: usize,
+    chunk: usize,
+}
+
+impl std::io::Read for ChunkReader<'_> {
+    fn read(&mut self, buf: &mut [u8]) -> std::io::Result<usize> {
+        let k = buf.len().min(self.chunk).min(self.data.len() - self.pos);
+        buf[..k].copy_from_slice(&self.data[self.pos..self.pos + k]);
+        self.pos += k;
+        Ok(k)
     }
 }
 
@@ -156,6 +194,27 @@ fn ser_generic<T: serde::Serialize + serde::de::DeserializeOwned + PartialEq>(re
     };
     chk!(rep, "deserialized == original", what, Exp::Is(true), &v2 == v);
     chk!(rep, "re-serialize identical", what, Exp::Is(true), bincode::serialize(&v2).ok().as_deref() == Some(&bytes[..]));
+    for (how, chunk) in [("slice reader", 0usize), ("7-byte reads", 7), ("BufReader over 4093-byte reads", 4093)] {
+        if chunk == 7 && bytes.len() > 3_000_000 {
+            continue;
+        }
+        let r = guard(|| match chunk {
+            0 => bincode::deserialize_from::<_, T>(&bytes[..]),
+            7 => bincode::deserialize_from::<_, T>(ChunkReader { data: &bytes, pos: 0, chunk }),
+            _ => bincode::deserialize_from::<_, T>(std::io::BufReader::new(ChunkReader { data: &bytes, pos: 0, chunk })),
+        });
+        rep.tick("deserialize_from(reader)");
+        match r {
+            Out::Val(Ok(v4)) => {
+                chk!(rep, "deserialize_from(reader) == original", (what, how), Exp::Is(true), &v4 == v);
+            }
+            Out::Val(Err(e)) => rep.viol("deserialize_from(reader)", format!("{} {} ({} bytes)", what, how, bytes.len()), "Ok".into(), format!("Err({})", e), "wrong_value".into()),
+            Out::Panic(p) => rep.viol("deserialize_from(reader)", format!("{} {} ({} bytes)", what, how, bytes.len()), "Ok".into(), format!("{:?}", p), "panic".into()),
+        }
+    }
+    let mut w: Vec<u8> = Vec::new();
+    chk!(rep, "serialize_into(writer) writes the same bytes", what, Exp::Is(true), bincode::serialize_into(&mut w, v).is_ok() && w == bytes);
+    chk!(rep, "serialized_size == number of bytes written", what, Exp::Is(Some(bytes.len() as u64)), bincode::serialized_size(v).ok());
     Some(v2)
 }
 
